@@ -170,23 +170,24 @@ PROPS = {
         "level_note": "Sequentially consistent interleavings only (no weak-memory reorderings); crossbeam's ArrayQueue and slotmap are treated as atomic between scheduling points; memory errors are only caught when they crash, hang or corrupt the oracles.",
     },
     "C03": {
-        "title": "A wake-up from any thread is never lost (executor layer; driver notify protocol and external-loop mode are Engine K+T work)",
+        "title": "A wake-up from any thread is never lost",
         "engine": "T",
         "package": "check-t",
         "bin": "check-t",
-        "design_ref": "§5, §7 C03 layer 1",
-        "technique": "deterministic simulation: the real compio-executor (hook H4) on shuttle coroutines with decider-driven context switches; 1-3 waker threads deliver concurrent and repeated cross-thread wakes (wake / wake_by_ref / clone) through a 1-2 entry cross-thread queue while the home thread ticks and parks; event-then-wake discipline, completion-by-quiescence and deadlock oracles; choice-sequence minimisation and replay",
+        "design_ref": "§5, §7 C03, §13.9",
+        "more_parts": [{"engine": "M", "package": "check-k", "bin": "check-k", "share": 1}],
+        "technique": "deterministic simulation: the real compio-executor (hook H4) on shuttle coroutines with decider-driven context switches; 1-3 waker threads deliver concurrent and repeated cross-thread wakes (wake / wake_by_ref / clone) through a 1-2 entry cross-thread queue while the home thread ticks and parks; event-then-wake discipline, completion-by-quiescence and deadlock oracles; second part (Engine M, real threads one at a time): a whole compio runtime on the simulated io_uring kernel, blocked or about to block in its driver, in its own loop (block_on) or driven from outside (run/poll_with), with a cross-thread queue of 1, 2 or 64 entries; 1..3 real waker threads deliver events to 1..4 tasks and to the root future (event first, then the waker, by value or by reference, repeated, from two threads) through the real notifier (AwakeFlag + eventfd into the ring); wake-lost oracle (everything completes without the 10 s guard timer); choice-sequence minimisation and replay",
         "tiers": {
             "quick": {"runs": 110_000, "time_limit_s": 60},
             "thorough": {"runs": 40_000_000, "time_limit_s": 1500},
         },
         "rule": T_RULE,
         "real": T_REAL,
-        "stub": T_STUB + ["the runtime's driver: here the executor's `waker` is a flag+unpark of the home thread (the AwakeFlag/notifier protocol is not in this check yet)"],
+        "stub": T_STUB + ["Engine T part: the runtime's driver (the executor's `waker` is a flag+unpark of the home thread); Engine M part: the OS scheduler (baton), the io_uring kernel, the clock"],
         "assumptions": T_ASSUME,
         "level_text": ("Seeded exploration of interleavings between waking threads and the home thread's tick / park sequence: after the event a task waits for has happened and its waker was invoked, the task is polled again "
                        "(otherwise it cannot complete and the run ends in `not-completed`, `join-never-resolved` or a deadlock); a full cross-thread queue makes the waker wait, not discard."),
-        "level_note": "Layer 1 (executor) of the three layers in DESIGN §7 C03. Sequentially consistent interleavings only.",
+        "level_note": "Layer 1 (executor) on Engine T; layers 2 and 3 (notifier protocol, own loop and external loop) on Engine M. Sequentially consistent interleavings only.",
     },
     "C17": {
         "title": "The blocking pool is bounded and loses nothing",
